@@ -111,6 +111,47 @@ impl Ord for B3 {
     }
 }
 
+/// A `Copy` element of exactly `N` bytes (alignment 1).  The origin sits in the first min(N, 4) bytes, the rest is a
+/// pattern derived from it, so an element assembled from pieces of two elements ("torn") is recognisable.
+/// `Blob<1>` (one byte: memset-style fast paths) and `Blob<80>` (wider than a cache line: "large element" paths).
+#[derive(Clone, Copy, PartialEq, Eq, Hash, Debug)]
+pub struct Blob<const N: usize>(pub [u8; N]);
+impl<const N: usize> Default for Blob<N> {
+    fn default() -> Self {
+        Blob::of(0)
+    }
+}
+impl<const N: usize> Blob<N> {
+    pub fn of(origin: u32) -> Self {
+        let mut b = [0u8; N];
+        for (i, x) in b.iter_mut().enumerate() {
+            *x = if i < 4 { (origin >> (8 * i)) as u8 } else { (origin as u8).wrapping_mul(31).wrapping_add(i as u8) };
+        }
+        Blob(b)
+    }
+    pub fn get(&self) -> u32 {
+        let mut o = 0u32;
+        for i in 0..N.min(4) {
+            o |= (self.0[i] as u32) << (8 * i);
+        }
+        if *self == Blob::<N>::of(o) { o } else { 0x7EA2_0000 | (o & 0xFFFF) }     // torn
+    }
+}
+impl<const N: usize> PartialOrd for Blob<N> {
+    fn partial_cmp(&self, o: &Self) -> Option<Ordering> {
+        Some(self.cmp(o))
+    }
+}
+impl<const N: usize> Ord for Blob<N> {
+    fn cmp(&self, o: &Self) -> Ordering {
+        (self.get() % 3).cmp(&(o.get() % 3))
+    }
+}
+pub type B1 = Blob<1>;
+pub type W80 = Blob<80>;
+/// one KiB per element: a few hundred cells already cross every byte-size threshold up to the cache sizes
+pub type W1K = Blob<1024>;
+
 /// A move-only element WITHOUT drop glue (`mem::needs_drop::<Tok>()` is false): it cannot be dropped twice, but it can
 /// still be *duplicated* - two owners of one value, which for `&mut U` or a linear token is unsound.  Identity = serial
 /// (unique per object, clones get a fresh one), so duplicates are observable although nothing is recorded on drop.
@@ -214,6 +255,8 @@ pub trait CellT: Sized + Clone + Default + Ord + std::fmt::Debug + 'static {
     const HAS_VALUE: bool = true;
     /// the type has identity tracked in the ledger
     const TRACKED: bool = false;
+    /// the largest origin the type can hold (cases with larger values are skipped for it)
+    const MAX_ORIGIN: u32 = u32::MAX;
     /// `serial()` identifies the object (two cells with one serial = one element owned twice)
     const HAS_SERIAL: bool = false;
     fn make(origin: u32) -> Self;
@@ -297,6 +340,29 @@ impl CellT for B3 {
     const KIND: &'static str = "b3";
     fn make(origin: u32) -> B3 {
         B3([origin as u8, (origin >> 8) as u8, (origin >> 16) as u8])
+    }
+    fn origin(&self) -> u32 {
+        self.get()
+    }
+    fn copy_from_slice_on<R: toodee::CopyOps<Self>>(r: &mut R, src: &[Self]) -> bool {
+        r.copy_from_slice(src);
+        true
+    }
+    fn copy_from_toodee_on<R: toodee::CopyOps<Self>, S: toodee::TooDeeOps<Self>>(r: &mut R, s: &S) -> bool {
+        r.copy_from_toodee(s);
+        true
+    }
+    fn copy_within_on<R: toodee::CopyOps<Self>>(r: &mut R, src: ((usize, usize), (usize, usize)), d: (usize, usize)) -> bool {
+        r.copy_within(src, d);
+        true
+    }
+}
+
+impl<const N: usize> CellT for Blob<N> {
+    const KIND: &'static str = "blob";
+    const MAX_ORIGIN: u32 = if N >= 4 { u32::MAX } else { (1u32 << (8 * N)) - 1 };
+    fn make(origin: u32) -> Self {
+        Blob::of(origin)
     }
     fn origin(&self) -> u32 {
         self.get()
